@@ -76,7 +76,7 @@ def req_cases(tier: str, rng: random.Random) -> List[Dict[str, Any]]:
         for tu, mt in times:
             add(api, "M", number=2, time_unit=tu, max_time=mt, basis_local="X", basis_remote="Y")
     rots = [[0, 0, 0], [31, 31, 31], [1, 2, 3], [0, 24, 0], [16, 0, 0], [31, 0, 0], [0, 31, 0], [0, 0, 31], [5, 0, 7]]
-    nrand = 40 if tier == "quick" else 400
+    nrand = 40 if tier == "quick" else 3000
     rots += [[rng.randrange(32) for _ in range(3)] for _ in range(nrand)]
     for i, rl in enumerate(rots):
         rr = rots[(i * 7 + 3) % len(rots)]
@@ -99,7 +99,7 @@ def req_cases(tier: str, rng: random.Random) -> List[Dict[str, Any]]:
                 add(api, "R", number=2, time_unit=tu, max_time=mt, remote_node=node, socket=sock)
     # several requests in one subroutine: the same socket id towards two nodes, different types
     singles = [c["ps"][0] for c in out]
-    npairs = 60 if tier == "quick" else 400
+    npairs = 60 if tier == "quick" else 2500
     for _ in range(npairs):
         a, b = dict(rng.choice(singles)), dict(rng.choice(singles))
         a["remote_node"], b["remote_node"] = 1, 2
@@ -227,7 +227,7 @@ RES_APIS = [
 
 def res_cases(tier: str, rng: random.Random) -> List[Dict[str, Any]]:
     out = []
-    reps = 2 if tier == "quick" else 12
+    reps = 2 if tier == "quick" else 40
     for api, role, kind in RES_APIS:
         for n in (1, 2, 3):
             for rep in range(reps):
@@ -241,7 +241,7 @@ def res_cases(tier: str, rng: random.Random) -> List[Dict[str, Any]]:
     # two requests in one subroutine on different sockets / nodes: results must not mix
     pairs = list(itertools.permutations(RES_APIS, 2))
     rng.shuffle(pairs)
-    for (a1, r1, k1), (a2, r2, k2) in pairs[: (24 if tier == "quick" else 156)]:
+    for (a1, r1, k1), (a2, r2, k2) in pairs[: (24 if tier == "quick" else 240)]:
         out.append(dict(kind="res", reqs=[dict(api=a1, role=r1, kind=k1, n=rng.choice([1, 2]), node=1, socket=0),
                                           dict(api=a2, role=r2, kind=k2, n=rng.choice([1, 2]), node=2, socket=3)],
                         salt=rng.randrange(1 << 20), expect=False, reverse=bool(rng.randrange(2))))
